@@ -88,7 +88,7 @@ func (c *CollectionChange) include(includeFunc FilterFunc) (newChange *Collectio
 	newInclude := includeFunc(c.Id, c.NewValue)
 	if oldInclude == newInclude {
 		// the only time we want to skip sending the update is if both the old and new values are excluded
-		return c, !newInclude
+		return c, newInclude
 	}
 
 	if newInclude {
